@@ -98,6 +98,10 @@ def FieldAsm_fePow2k1 : Spec := FieldU64_fePow2kGeneric1
 def evenB : Nat := 226050910   -- ⌊(2^32-1)/19⌋ : 19·x fits a uint32
 def oddB : Nat := 113025455    -- half of it
 def mulPre32 : List AVal := [bnd evenB, bnd oddB, bnd evenB, bnd oddB, bnd evenB, bnd oddB, bnd evenB, bnd oddB, bnd evenB, bnd oddB]
+/-- what the reducing operations actually guarantee (even limbs < 2^26, odd limbs < 2^25 + 2^13): tight enough for the
+sum of three such elements to satisfy `mulPre32` again — the headroom the formulas of curve/models.go rely on
+(`Voi/Props/FL/Bounds`) -/
+def red32t : List AVal := [bits 26, bnd (2^25 + 2^13), bits 26, bnd (2^25 + 2^13), bits 26, bnd (2^25 + 2^13), bits 26, bnd (2^25 + 2^13), bits 26, bnd (2^25 + 2^13)]
 def red32 : List AVal := [bits 27, bits 26, bits 27, bits 26, bits 27, bits 26, bits 27, bits 26, bits 27, bits 26]
 def p16_32 : List AVal := [bnd (0x3ffffed * 16), bnd (0x1ffffff * 16), bnd (0x3ffffff * 16), bnd (0x1ffffff * 16), bnd (0x3ffffff * 16),
   bnd (0x1ffffff * 16), bnd (0x3ffffff * 16), bnd (0x1ffffff * 16), bnd (0x3ffffff * 16), bnd (0x1ffffff * 16)]
@@ -105,12 +109,12 @@ def fe32 (a : Nat) : Poly := linW (vars a 10) radix2625
 
 def FieldU32_Mul : Spec where
   pre := mulPre32 ++ mulPre32
-  post := red32
+  post := red32t
   noWrap := true
   congr := some ⟨P25519, weights radix2625, (fe32 0).mul (fe32 10)⟩
 def FieldU32_Pow2k1 : Spec where
   pre := mulPre32
-  post := red32
+  post := red32t
   noWrap := true
   congr := some ⟨P25519, weights radix2625, (fe32 0).mul (fe32 0)⟩
 def FieldU32_reduce : Spec where
@@ -125,22 +129,22 @@ def FieldU32_Add : Spec where
   congr := some ⟨0, weights radix2625, (fe32 0).add (fe32 10)⟩
 def FieldU32_Sub : Spec where
   pre := rep 10 (bnd (3 * 2^30 - 1)) ++ p16_32
-  post := red32
+  post := red32t
   noWrap := true
   congr := some ⟨P25519, weights radix2625, (fe32 0).add ((fe32 10).scale (-1))⟩
 def FieldU32_Neg : Spec where
   pre := p16_32
-  post := red32
+  post := red32t
   noWrap := true
   congr := some ⟨P25519, weights radix2625, (fe32 0).scale (-1)⟩
 def FieldU32_Mul121666 : Spec where
   pre := mulPre32
-  post := red32
+  post := red32t
   noWrap := true
   congr := some ⟨P25519, weights radix2625, (fe32 0).scale 121666⟩
 def FieldU32_Square2 : Spec where
   pre := mulPre32
-  post := red32
+  post := red32t
   noWrap := true
   congr := some ⟨P25519, weights radix2625, ((fe32 0).mul (fe32 0)).scale 2⟩
 def FieldU32_SetBytes : Spec where
